@@ -1,5 +1,6 @@
 """Statement contracts for the de-collision loops (C01: one file per model; C20: distinct identifiers per namespace)."""
 from pyvc.contracts import contract
+from pyopenapi_gen.core.utils import NameSanitizer
 
 ME = "pyopenapi_gen.emitters.models_emitter"
 
@@ -56,6 +57,44 @@ def _fresh_method_or_counter(arg0, seen_methods, method_name):
     return arg0 not in seen_methods or (arg0 == method_name and method_name in seen_methods)
 
 
+def _renamed_operation_is_recorded(arg0, seen_methods):
+    """C07: the operation id an operation is renamed to is recorded as taken under its method name — together with the freshness of every
+    recorded name (assertion above) no two operations end up with the same method name"""
+    return NameSanitizer.sanitize_method_name(arg0) in seen_methods
+
+
 c = contract(f"{EE}:EndpointsEmitter._deduplicate_operation_ids_globally", props=["C07", "C20"], types={"operations": "list"},
-             site_asserts={"seen_methods[]": _fresh_method_or_counter}, abstract_unsupported=True, tracked_names=["seen_methods"],
+             site_asserts={"seen_methods[]": _fresh_method_or_counter, "op.operation_id=": _renamed_operation_is_recorded},
+             functional_opaque=["NameSanitizer.sanitize_method_name", "sanitize_method_name"],
+             abstract_unsupported=True, tracked_names=["seen_methods"],
              dependency_post={"sanitize_method_name": _is_str}, nothrow_calls=["sanitize_method_name"])
+
+
+@c.invariant(1)
+def dedup_probe_inv(new_method_name, new_op_id):
+    """suffix-probing loop: the candidate method name is always the sanitised candidate operation id"""
+    return new_method_name == NameSanitizer.sanitize_method_name(new_op_id)
+
+
+# the same function, one arbitrary iteration of `for op in operations`: the statement of C07 "no two operations share a method name"
+c = contract(f"{EE}:EndpointsEmitter._deduplicate_operation_ids_globally#one-operation", props=["C07", "C20"], region_for_target="op", region_body_only=True,
+             types={"seen_methods": "dict", "op": "obj", "other": "str"}, shape={"op.operation_id": "str"},
+             functional_opaque=["NameSanitizer.sanitize_method_name", "sanitize_method_name"], abstract_unsupported=True,
+             dependency_post={"sanitize_method_name": _is_str}, nothrow_calls=["sanitize_method_name"])
+
+
+@c.invariant(1)
+def dedup_probe_inv_region(new_method_name, new_op_id):
+    return new_method_name == NameSanitizer.sanitize_method_name(new_op_id)
+
+
+@c.ensures(only_exit="end", note="C07: the method name this operation ends up with was not taken by any earlier operation, and is taken afterwards; "
+                                 "names taken earlier stay taken (so by induction all method names are pairwise distinct)")
+def dedup_name_was_free_and_is_taken(seen_methods, op, old):
+    name = NameSanitizer.sanitize_method_name(op.operation_id)
+    return name not in old.seen_methods and name in seen_methods
+
+
+@c.ensures(only_exit="end")
+def dedup_taken_names_stay_taken(seen_methods, other, old):
+    return other not in old.seen_methods or other in seen_methods
